@@ -11,6 +11,8 @@ impose_support keeps exactly the listed weights and impose_unweighted zeroes
 exactly the listed ones, with negative indices normalised by the length.
 Round 4: impose_variance / impose_spread case analysis (unchanged only for zero
 statistic and zero target; nan only for degenerate samples).
+Round 5 (hunt): distances are computed on float casts (repair 7928278); Lnorm
+takes the absolute value before the power.
 NOT decided: reaching targets numerically, medians/MADs/trimmed variants,
 distances and norms.
 """
